@@ -179,6 +179,16 @@ Theorem wrapper_range_defined : forall st j off n e, reachable st -> owning (slo
 Proof. exact resolve_wrap_defined_reach. Qed.
 Print Assumptions wrapper_range_defined.
 
+(* a `const T &` parameter bound to an element of a wrapper — of the very array the call is made on, j = i:
+   arr.resize(n, arr[idx]).  The fill value is the value that element had BEFORE the call, although the call may move
+   or free the storage the reference points into (growth past the capacity) or destroy the element (shrinking). *)
+Theorem resize_from_own_element : forall st i a vb n j idx e v st1, reachable st ->
+  slot_at st i = SOwned a vb -> elems st j = Some e -> nth_error e idx = Some (RVal v) ->
+  step_new st (ResizeRef i n j idx) = Some st1 ->
+  elems st1 i = Some (map RVal (firstn n (vec_cells st vb) ++ repeat v (n - length (vec_cells st vb)))).
+Proof. exact resize_ref_reach. Qed.
+Print Assumptions resize_from_own_element.
+
 (* -------------------------------------------------------------------------------- the frame theorem *)
 (* An operation leaves every owning wrapper it does not target exactly as it was: the operation's targets are the
    slots it constructs, assigns, resets, resizes, moves from or destroys; a write through a wrapper additionally
@@ -218,7 +228,7 @@ Print Assumptions dataview_offset.
 
 (* ------------------------------------------------------------------- the source-derived fact check *)
 (* The reflective checker of PropertiesFacts.v accepts the table Model.v assumes (special members, micro-operation
-   lists interpreted over the model's heap on 96 configurations vs step_new, accessor / at() / setPtr / DataView
+   lists interpreted over the model's heap on 105 configurations vs step_new, accessor / at() / setPtr / DataView
    expressions on a grid vs set_ptr / arr_at / arr_iter / dv_index) — so a failure of PropertiesFacts.facts_match on
    the table generated from the working tree is about the source — and it rejects realistic slips: resize, the copy
    constructor or reset() without setPtr, a move constructor that does not reset its source, a FixedArrayView
@@ -324,6 +334,15 @@ Example self_reset_nonvacuous :
      step_new st1 (FromWrap 2 KView 0 0 2) = Some st2 /\ elems st2 2 = Some [RVal 2; RVal 3]%N /\
      step_new st2 (ResetWrap 0 2 1 1) = Some st3 /\ elems st3 0 = Some [RVal 3]%N /\
      elems st3 2 = Some [RDangling; RDangling].
+Proof. vm_compute. eexists. eexists. eexists. repeat split; reflexivity. Qed.
+
+(* resize(n, a[idx]) with the reference into the array itself: past the capacity (reallocation frees the referenced
+   storage), and shrinking below idx (the referenced element is destroyed) followed by growth *)
+Example resize_ref_nonvacuous :
+  exists st1 st2 st3, step_new ex_st (ResizeRef 0 9 0 1) = Some st1 /\
+     elems st1 0 = Some (map RVal [1;2;3;2;2;2;2;2;2]%N) /\
+     step_new st1 (ResizeRef 0 1 0 8) = Some st2 /\ elems st2 0 = Some [RVal 1]%N /\
+     step_new st2 (ResizeRef 0 3 0 0) = Some st3 /\ elems st3 0 = Some (map RVal [1;1;1]%N).
 Proof. vm_compute. eexists. eexists. eexists. repeat split; reflexivity. Qed.
 
 Example dataview_example :
